@@ -2,53 +2,128 @@
 //! waker. When the future is Pending and nobody woke it, the simulator gets
 //! to act (`on_idle`); if it has nothing to do either, the run is *stuck* —
 //! which is an observation, not a harness failure.
+//!
+//! The loop itself runs inside a per-thread tokio current-thread runtime with
+//! a *paused* clock (discrete-event time): code under test that uses
+//! `tokio::time`, `tokio::fs` or `spawn_blocking` finds a runtime, simulated
+//! stalls are `tokio::time::Sleep`s owned by `SimConn`, and when neither the
+//! future nor the simulator can move, control goes back to tokio, which jumps
+//! the clock to the next timer. If there is no timer either, the next timer is
+//! our own watchdog (one virtual day) and the run is reported as stuck.
+use std::cell::RefCell;
 use std::future::Future;
-use std::pin::pin;
+use std::pin::Pin;
 use std::sync::atomic::{AtomicBool, Ordering};
-use std::sync::Arc;
+use std::sync::{Arc, Mutex};
 use std::task::{Context, Poll, Wake, Waker};
+use std::time::Duration;
 
-struct Flag(AtomicBool);
+/// Virtual time after which a run that cannot move is declared stuck.
+pub const WATCHDOG: Duration = Duration::from_secs(86_400);
+
+struct Flag {
+    woken: AtomicBool,
+    /// tokio's waker for the driving task: a wake-up that arrives while we are
+    /// parked in the runtime (a timer, a blocking task) must reach it.
+    outer: Mutex<Option<Waker>>,
+}
 
 impl Wake for Flag {
     fn wake(self: Arc<Self>) {
-        self.0.store(true, Ordering::SeqCst);
+        self.wake_by_ref();
     }
     fn wake_by_ref(self: &Arc<Self>) {
-        self.0.store(true, Ordering::SeqCst);
+        self.woken.store(true, Ordering::SeqCst);
+        if let Some(w) = self.outer.lock().unwrap().as_ref() {
+            w.wake_by_ref();
+        }
     }
 }
 
 #[derive(Debug)]
 pub enum Outcome<T> {
     Done(T),
-    /// Pending, not woken, simulator has nothing left to deliver.
+    /// Pending, not woken, simulator has nothing left to deliver, no timer pending.
     Stuck,
     /// More polls than `max_polls` (livelock guard).
     PollLimit,
 }
 
-pub fn run<F: Future>(fut: F, mut on_idle: impl FnMut() -> bool, max_polls: u64) -> (Outcome<F::Output>, u64) {
-    let flag = Arc::new(Flag(AtomicBool::new(false)));
-    let waker = Waker::from(flag.clone());
-    let mut cx = Context::from_waker(&waker);
-    let mut fut = pin!(fut);
-    let mut polls = 0u64;
-    loop {
-        polls += 1;
-        if polls > max_polls {
-            return (Outcome::PollLimit, polls);
+struct Driven<'a, F: Future, I: FnMut() -> bool> {
+    fut: Pin<&'a mut F>,
+    on_idle: I,
+    polls: u64,
+    max_polls: u64,
+    flag: Arc<Flag>,
+}
+
+impl<F: Future, I: FnMut() -> bool + Unpin> Future for Driven<'_, F, I> {
+    type Output = Outcome<F::Output>;
+    fn poll(mut self: Pin<&mut Self>, cx: &mut Context<'_>) -> Poll<Self::Output> {
+        *self.flag.outer.lock().unwrap() = Some(cx.waker().clone());
+        let waker = Waker::from(self.flag.clone());
+        let mut icx = Context::from_waker(&waker);
+        loop {
+            self.polls += 1;
+            if self.polls > self.max_polls {
+                return Poll::Ready(Outcome::PollLimit);
+            }
+            self.flag.woken.store(false, Ordering::SeqCst);
+            let this = &mut *self;
+            if let Poll::Ready(v) = this.fut.as_mut().poll(&mut icx) {
+                return Poll::Ready(Outcome::Done(v));
+            }
+            if self.flag.woken.swap(false, Ordering::SeqCst) {
+                continue;
+            }
+            if (self.on_idle)() {
+                continue;
+            }
+            // Neither the code under test nor the simulator can move now: let the
+            // runtime advance virtual time to the next timer (a simulated stall, a
+            // timer of the code under test, or the watchdog).
+            return Poll::Pending;
         }
-        if let Poll::Ready(v) = fut.as_mut().poll(&mut cx) {
-            return (Outcome::Done(v), polls);
-        }
-        if flag.0.swap(false, Ordering::SeqCst) {
-            continue;
-        }
-        if on_idle() {
-            flag.0.store(false, Ordering::SeqCst);
-            continue;
-        }
-        return (Outcome::Stuck, polls);
     }
+}
+
+thread_local! {
+    static RT: RefCell<Option<tokio::runtime::Runtime>> = const { RefCell::new(None) };
+}
+
+fn new_runtime() -> tokio::runtime::Runtime {
+    tokio::runtime::Builder::new_current_thread()
+        .enable_time()
+        .start_paused(true)
+        .build()
+        .expect("tokio runtime")
+}
+
+pub fn run<F: Future>(fut: F, on_idle: impl FnMut() -> bool + Unpin, max_polls: u64) -> (Outcome<F::Output>, u64) {
+    // The runtime is taken out of its slot while in use: if the code under test
+    // panics, the unwinding drops it and the next run gets a fresh one.
+    let rt = RT.with(|c| c.borrow_mut().take()).unwrap_or_else(new_runtime);
+    let flag = Arc::new(Flag {
+        woken: AtomicBool::new(false),
+        outer: Mutex::new(None),
+    });
+    let mut fut = std::pin::pin!(fut);
+    let mut polls = 0u64;
+    let out = rt.block_on(async {
+        let mut driven = Driven {
+            fut: fut.as_mut(),
+            on_idle,
+            polls: 0,
+            max_polls,
+            flag: flag.clone(),
+        };
+        let r = tokio::time::timeout(WATCHDOG, &mut driven).await;
+        polls = driven.polls;
+        match r {
+            Ok(o) => o,
+            Err(_) => Outcome::Stuck,
+        }
+    });
+    RT.with(|c| *c.borrow_mut() = Some(rt));
+    (out, polls)
 }
